@@ -255,7 +255,7 @@ impl Check for C05 {
     }
     fn rule(&self) -> String {
         "each run: 2 bystanders + 1 fuzzing client in one of 7 session states; 12-40 lines from a grammar over all 41 verbs x arity 0..max+2 x 23 parameter shapes, \
-         plus byte-level mutations, delivered whole, fragmented at arbitrary byte offsets, or pipelined. A case is distinct+nontrivial by its (verb, arity, shape vector, \
+         plus byte-level mutations, delivered whole, fragmented at arbitrary byte offsets, or pipelined; in a third of the runs further users come, receive one or several ranks, rename, are kicked and leave in every way between the fuzzing client's lines (environment churn). A case is distinct+nontrivial by its (verb, arity, shape vector, \
          mutation kind, session state) tuple; counted only when the line was actually delivered to a live fuzzing connection."
             .into()
     }
@@ -267,7 +267,7 @@ impl Check for C05 {
         ]
     }
     fn probes(&self) -> Vec<&'static str> {
-        vec!["fault.fragmented_send", "fault.pipelined_segment", "fault.slow_reader", "fault.short_reads", "net.writer_blocked", "net.short_reads", "mut.bitflip", "mut.pad_to_limit", "sender_closed_excused", "probe_privmsg_ok", "state.ircop", "state.unregistered", "state.refused_at_completion"]
+        vec!["fault.fragmented_send", "fault.pipelined_segment", "fault.slow_reader", "fault.short_reads", "net.writer_blocked", "net.short_reads", "mut.bitflip", "mut.pad_to_limit", "sender_closed_excused", "probe_privmsg_ok", "state.ircop", "state.unregistered", "state.refused_at_completion", "fault.churn"]
     }
 
     fn gen(&self, run_seed: u64, _idx: u64, _tier: Tier) -> Trace {
@@ -355,6 +355,10 @@ impl Check for C05 {
             a.push(Action::Mark { m: "slow_reader".into() });
         }
         let mut probe_no = 0;
+        let churn = r.chance(1, 3);
+        let mut churn_live: Option<(usize, String)> = None;
+        let mut churn_no = 0;
+        let mut next_conn = if state == 7 { 4 } else { 3 };
         let mut labels: Vec<String> = vec![];
         let mut prev: Vec<u8> = b"PRIVMSG #mix :x".to_vec();
         let mut i = 0;
@@ -401,6 +405,59 @@ impl Check for C05 {
             if slow_reader && r.chance(1, 3) {
                 a.push(Action::Grant { c: FZ, n: [1usize, 50, 400, 3000][r.below(4)] });
                 a.push(Action::Settle);
+            }
+            // environment churn: further users come, get (several) ranks, rename, leave in every way - so that the
+            // fuzzing client's lines meet state that has just been torn down or moved
+            if churn && r.chance(1, 4) {
+                a.push(Action::Mark { m: "churn".into() });
+                match churn_live {
+                    None => {
+                        a.push(Action::Open { ip: format!("10.0.1.{}", next_conn) });
+                        churn_no += 1;
+                        let nick = format!("ch{}", churn_no);
+                        reg(&mut a, next_conn, &nick, &pass);
+                        say(&mut a, next_conn, ["JOIN #mix,#by", "JOIN #mix", "JOIN #churn,#mix", "JOIN &loc,#mix"][r.below(4)]);
+                        let ranks = ["+o", "+v", "+ov", "+hv", "+ao", "+qo", "+qaohv", "+h"][r.below(8)];
+                        let args = std::iter::repeat(nick.as_str()).take(ranks.len() - 1).collect::<Vec<_>>().join(" ");
+                        say(&mut a, B1, &format!("MODE #mix {} {}", ranks, args));
+                        if r.chance(1, 3) {
+                            say(&mut a, next_conn, &format!("INVITE fz {}", ["#mix", "#churn"][r.below(2)]));
+                        }
+                        churn_live = Some((next_conn, nick));
+                        next_conn += 1;
+                    }
+                    Some((c, ref nick)) => {
+                        let nick = nick.clone();
+                        match r.below(8) {
+                            0 => {
+                                say(&mut a, c, "QUIT :churn");
+                                churn_live = None;
+                            }
+                            1 => {
+                                a.push(Action::Reset { c });
+                                a.push(Action::Settle);
+                                churn_live = None;
+                            }
+                            2 => {
+                                a.push(Action::CloseWrite { c });
+                                a.push(Action::Settle);
+                                churn_live = None;
+                            }
+                            3 => say(&mut a, c, "PART #mix"),
+                            4 => {
+                                let nn = format!("{}x", nick);
+                                say(&mut a, c, &format!("NICK {}", nn));
+                                churn_live = Some((c, nn));
+                            }
+                            5 => say(&mut a, B1, &format!("KICK #mix {}", nick)),
+                            6 => say(&mut a, c, "JOIN #mix"),
+                            _ => {
+                                say(&mut a, c, &format!("MODE #mix -o {}", nick));
+                                say(&mut a, c, "AWAY :gone");
+                            }
+                        }
+                    }
+                }
             }
             if r.chance(1, 2) {
                 probe_no += 1;
